@@ -92,6 +92,7 @@ CheckRecord(k) ==
          /\ (IF c.op \in {"uniquify", "flatten"} THEN Report("FAIL", k, TransformClauses(pre, c, r.out, post)) ELSE TRUE)
          /\ (IF c.op = "edif_read" THEN Report("FAIL", k, EdifReadClauses(pre, c, r.out, post, RetOf(r))) ELSE TRUE)
          /\ (IF c.op = "edif_rt" THEN Report("FAIL", k, EdifRtClauses(pre, c, r.out, post, RetOf(r), r)) ELSE TRUE)
+         /\ (IF c.op = "edif_rt" THEN Report("FAIL", k, EdifNameClauses(pre, c, r.out, post, RetOf(r), r)) ELSE TRUE)
          /\ (IF c.op = "compare" THEN Report("FAIL", k, CompareClauses(pre, c, r)) ELSE TRUE)
          /\ (IF c.op = "q" THEN Report("FAIL", k, QueryFilterClauses(c, r)) ELSE TRUE)
          /\ (IF c.op = "clone" THEN Report("FAIL", k, CloneClauses(pre, c, r.out, post, RetOf(r), FullPost(r))) ELSE TRUE)
